@@ -110,7 +110,7 @@ fn proj_no_ts(w: &Wallet) -> u64 {
 pub fn run(a: &Args) {
 	let mut rep = Report::new("C16");
 	let mut rng = Rng::new(a.shard_seed() ^ 0xC16);
-	let n_scen = a.get_u64("scenarios", if a.thorough() { 6 } else { 2 }) as usize;
+	let n_scen = a.get_u64("scenarios", if a.thorough() { 6 } else { 3 }) as usize;
 	for si in 0..n_scen {
 		let dir = format!("{}/s{}", a.work, si);
 		let mut world = World::two(&dir);
